@@ -62,7 +62,9 @@ impl Prop for C09 {
         let max_len = if ctx.thorough { 60 } else { 40 };
         //  create clone droptx droprx send recv region set server remote
         let hist = world::program_strategy([3, 2, 1, 5, 12, 4, 0, 1, 1, 0], 3, max_len).prop_map(|ops| Case::History { ops });
-        let plan = (prop_oneof![2 => Just(0u8), 1 => 1u8..4], any::<bool>(), 0u16..2000).prop_map(|(size, attach, jitter)| SendPlan { size, attach, jitter });
+        // size class 9: a message far larger than the kernel buffers - its send blocks until the
+        // receiver reads or vanishes (the receiver of the race never reads, it only vanishes)
+        let plan = (prop_oneof![6 => Just(0u8), 3 => 1u8..4, 1 => Just(9u8)], any::<bool>(), 0u16..2000).prop_map(|(size, attach, jitter)| SendPlan { size, attach, jitter });
         let race = (proptest::collection::vec(plan, 1..9), 0u16..6000, any::<bool>(), any::<bool>())
             .prop_map(|(sends, drop_jitter, by_process, bytes)| Case::Race { sends, drop_jitter, by_process, bytes });
         prop_oneof![3 => hist, 2 => race].boxed()
@@ -134,10 +136,21 @@ fn race(sends: &[SendPlan], drop_jitter: u16, by_process: bool, bytes: bool) -> 
         let (t, r) = ipc::channel::<Node>().map_err(|e| Failure::inconclusive(e.to_string()))?;
         (Tx::T(t), Rx::T(r))
     };
+    let wait_for_huge = sends.iter().any(|p| p.size == 9) && drop_jitter % 2 == 0;
+    sh.scratch[3].store(0, SeqCst);
     let do_drop = move |rx: Rx| {
         let sh = ip::shared();
         while sh.scratch[0].load(SeqCst) == 0 {
             std::hint::spin_loop();
+        }
+        if wait_for_huge {
+            // drop while the sender is blocked in the middle of its huge message: wait until it has
+            // started that send, then give it time to fill the kernel buffers
+            let t0 = std::time::Instant::now();
+            while sh.scratch[3].load(SeqCst) == 0 && t0.elapsed() < std::time::Duration::from_secs(5) {
+                std::thread::yield_now();
+            }
+            std::thread::sleep(std::time::Duration::from_millis(3));
         }
         sandbox::spin(drop_jitter as u32 * 16);
         sh.scratch[1].store(stamp(), SeqCst);
@@ -157,6 +170,8 @@ fn race(sends: &[SendPlan], drop_jitter: u16, by_process: bool, bytes: bool) -> 
         dropper = Some(std::thread::spawn(move || do_drop(rx)));
     }
     let plans = sends.to_vec();
+    let huge = std::sync::Arc::new(std::sync::atomic::AtomicBool::new(false));
+    let huge_seen = huge.clone();
     let sender = std::thread::spawn(move || {
         let sh = ip::shared();
         sh.scratch[0].store(1, SeqCst);
@@ -165,10 +180,13 @@ fn race(sends: &[SendPlan], drop_jitter: u16, by_process: bool, bytes: bool) -> 
             sandbox::spin(p.jitter as u32 * 16);
             let len = match p.size {
                 0 => 100,
-                n => f1 + n as usize * f - 33,
-            }
-            .min(300_000);
+                9 => 700_000,
+                n => (f1 + n as usize * f - 33).min(300_000),
+            };
             let body = payload::make(0, 0, k as u32, len, k as u64 + 1);
+            if p.size == 9 {
+                ip::shared().scratch[3].store(1, SeqCst);
+            }
             let s = stamp();
             let ok = match &tx {
                 Tx::B(t) => t.send(&body).is_ok(),
@@ -184,13 +202,16 @@ fn race(sends: &[SendPlan], drop_jitter: u16, by_process: bool, bytes: bool) -> 
             };
             let e = stamp();
             log.push((s, e, ok, p.size > 0 || p.attach));
+            if p.size == 9 {
+                huge.store(true, SeqCst);
+            }
         }
         log
     });
     let log = match sandbox::watched(move || sender.join()) {
         Ok(Ok(l)) => l,
         Ok(Err(_)) => fail!("race:sender-panicked", "the sending thread panicked"),
-        Err(h) => return Err(sandbox::hang_failure("race:send-hangs", "a send against a receiver that is being dropped never returned", h)),
+        Err(h) => return Err(sandbox::hang_failure("race:send-hangs", "a send (possibly blocked on full buffers in the middle of a multi-packet message) against a receiver that was dropped never returned", h)),
     };
     if let Some(d) = dropper {
         let _ = d.join();
@@ -204,6 +225,7 @@ fn race(sends: &[SendPlan], drop_jitter: u16, by_process: bool, bytes: bool) -> 
     let (ds, de) = (sh.scratch[1].load(SeqCst), sh.scratch[2].load(SeqCst));
     let mut after = 0;
     let mut rich_after = 0;
+    let spanning = log.iter().any(|(s, e, _, _)| ds != 0 && *s < ds && *e > de);
     for (k, (s, e, ok, rich)) in log.iter().enumerate() {
         if de != 0 && *s > de {
             ensure!(!ok, "race:ok-after-receiver-dropped", "send {} started at stamp {} after the receiver's drop had returned (stamp {}) and still reported success", k, s, de);
@@ -216,6 +238,6 @@ fn race(sends: &[SendPlan], drop_jitter: u16, by_process: bool, bytes: bool) -> 
             ensure!(*ok, "race:error-before-receiver-dropped", "send {} returned at stamp {} before the receiver's drop began (stamp {}) but failed", k, e, ds);
         }
     }
-    let class = format!("race/{}{}{}", if by_process { "process" } else { "thread" }, if bytes { "+bytes" } else { "" }, if rich_after > 0 { "+rich-send-after-drop" } else if after > 0 { "+send-after-drop" } else { "" });
+    let class = format!("race/{}{}{}{}", if by_process { "process" } else { "thread" }, if bytes { "+bytes" } else { "" }, if rich_after > 0 { "+rich-send-after-drop" } else if after > 0 { "+send-after-drop" } else { "" }, if huge_seen.load(SeqCst) && spanning { "+drop-during-blocked-huge-send" } else if huge_seen.load(SeqCst) { "+huge-send" } else { "" });
     Ok(Outcome::new(rich_after > 0, class).with("race_sends_after_drop", after))
 }
